@@ -243,3 +243,7 @@ cell_val_month = cell_val_dow = row_frame
 def string(s):
     return s
 renamed = path_depends_on = row_frame
+
+
+def nan_value():
+    return float("nan")
